@@ -15,7 +15,12 @@ class Gen:
             for i in range(lo + r.below(hi - lo + 1)):
                 name = f"{kind[0]}{kind[-1]}{i}" if kind not in ("atomic", "mutex") else f"{kind[0]}{i}"
                 if kind == "atomic":
-                    objs.append((name, kind, [str(r.choice([0, 1, 5, 2**64 - 1, 2**63]))]))
+                    args = [str(r.choice([0, 1, 5, 2**64 - 1, 2**63, 127, 128, 255, 32768, 2**31]))
+                            if p.get("atypes") else str(r.choice([0, 1, 5, 2**64 - 1, 2**63]))]
+                    if p.get("atypes"):
+                        args.append(r.choice(["u8", "u16", "u32", "u64", "usize", "i8", "i16", "i32", "i64", "isize",
+                                              "bool", "i8", "u8"]))
+                    objs.append((name, kind, args))
                 elif kind in ("mutex", "rwlock"):
                     objs.append((name, kind, [str(r.below(4))]))
                 elif kind == "barrier":
@@ -53,8 +58,14 @@ class Gen:
         r = self.r
         a = r.choice(self.names(objs, "atomic"))
         v = r.choice([0, 1, 1, 2, 3, 2**64 - 1, 2**63, 2**64 - 2])
-        op = r.choice(["aload", "aload", "astore", "aswap", "aadd", "aadd", "asub", "aand", "aor", "axor", "anand",
-                       "amax", "amin", "acas"])
+        ops = ["aload", "aload", "astore", "aswap", "aadd", "aadd", "asub", "aand", "aor", "axor", "anand",
+               "amax", "amin", "acas"]
+        if self.p.get("atypes"):
+            v = r.choice([0, 1, 1, 2, 3, 127, 128, 129, 200, 255, 256, 32767, 32768, 65535, 2**31 - 1, 2**31, 2**32 - 1,
+                          2**64 - 1, 2**63, 2**64 - 2, 2**63 - 1])
+            if [o for o in objs if o[0] == a][0][2][1:] == ["bool"]:
+                ops = ["aload", "astore", "aswap", "aand", "aor", "axor", "anand", "acas"]
+        op = r.choice(ops)
         if op == "aload":
             return [f"aload {a}"]
         if op == "acas":
@@ -179,6 +190,8 @@ class Gen:
         if c < 8:
             return [f"lock {m}", f"wait {cv} {m}"] + ([] if r.chance(1, 4) else [f"unlock {m}"])
         if c < 9:
+            if r.chance(1, 2):
+                return [f"lock {m}", f"wait_while {cv} {m} 0"] + ([] if r.chance(1, 5) else [f"unlock {m}"])
             return [f"wait {cv} {m}"]                                  # no guard
         return [f"lock {m}", f"wait {cv} {m}", f"setval {m} 0", f"unlock {m}"]
 
@@ -343,6 +356,9 @@ PROFILES = {
                "weights": {"atomic": 1, "lock": 2, "cvwait": 2, "cvnotify": 2, "send": 2, "recv": 2, "barrier": 1,
                            "once": 1, "sem": 2, "tls": 1, "lazy": 1, "yield": 1, "panic": 1},
                "min_tasks": 1, "extra_tasks": 2, "min_ops": 1, "extra_ops": 3},
+    "atomics": {"objs": {"atomic": (1, 3)}, "atypes": True,
+                "weights": {"atomic": 8, "yield": 1, "rand": 1},
+                "min_tasks": 1, "extra_tasks": 2, "min_ops": 2, "extra_ops": 5},
     "locks": {"objs": {"atomic": (1, 2), "mutex": (1, 2), "rwlock": (0, 1)},
               "weights": {"atomic": 3, "yield": 1, "lock": 5, "rw": 3, "rand": 1},
               "min_tasks": 1, "extra_tasks": 2, "min_ops": 1, "extra_ops": 4},
